@@ -19,7 +19,7 @@ CLAIMED = {
              'pointwise sequence and gradient are compared with the interpretation of the term bag.',
         note='bounded: <=2 (quick) / <=3 (thorough) outputs, <=3 observations per output, 4 time values; numeric '
              'leaves judged by harness/interp.py (documented densities, complex-step derivatives); ProbeMech '
-             'stands for an arbitrary mechanistic model',
+             'stands for an arbitrary mechanistic model; each error-model parameter is also fixed at the likelihood in turn (value / pointwise / gradient again) and released; the run is shared with C03',
         technique='TLA+ spec (LogLik.tla) model-checked with TLC; spec->code replay of every enumerated configuration',
         design='6/C01'),
 }
@@ -47,7 +47,7 @@ CLAIMED['C03'] = dict(
          'including the score equality with __call__, the posterior with a prior on the population block and re-evaluation '
          'after S1.',
     note='same bounds as C02; "equals the derivative" is decided numerically against harness/interp.py (tolerance 1e-7), '
-         'TLC decides the assembly; individual-level gradients are also exercised by the C01 replay',
+         'TLC decides the assembly; individual-level gradients are also exercised by the C01 replay; also judged here: the individual-level LogLik run (GradIsDecl, SensSwitch, FiniteAgree: at points with one parameter set to 0 / a negative number evaluateS1 is finite iff plain evaluation is), the gradient entries of the likelihood- and controller-level adapters of the shared FixParams run, individual likelihoods carrying a likelihood-level fixed parameter',
     technique='TLA+ specs (PopLayout.tla, LogLik.tla) model-checked with TLC; spec->code replay with exact-derivative oracle',
     design='6/C03')
 CLAIMED['C17'] = dict(
@@ -97,7 +97,7 @@ CLAIMED['C09'] = dict(
          'equal the closed-form matrix-exponential solution and its derivatives. Library models are compared with their '
          'documented equations integrated independently.',
     note='CVODES cannot be built in the sandbox: RefSim (pure Python reference integrator) is the trusted solver stand-in; '
-         'models are linear chains plus an intermediate and a derived constant; tolerance 1e-6',
+         'models are linear chains plus an intermediate and a derived constant; tolerance 1e-6; every declaration order is replayed a second time behind an absorption compartment (indirect administration) with sensitivities for a seeded proper subset, selected by name and through a reduced wrapper',
     technique='TLA+ spec (SBMLOrder.tla) model-checked with TLC; spec->code replay on generated SBML models with solver-call '
               'trace comparison and closed-form oracle',
     design='6/C09')
@@ -124,7 +124,7 @@ CLAIMED['C11'] = dict(
          'RefSim + method traces of those runs and of the repository solver-dependent tests are validated by TLC against the '
          'trace specification (a corrupted trace is rejected).',
     note='RefSim stands in for the native solver; bounded to 2 regimens, 2 output selections, 1 rename each, 2 instances; '
-         'oracle is a fresh model configured canonically (its correctness is C09/C10); re-administration keeps the regimen',
+         'oracle is a fresh model configured canonically (its correctness is C09/C10); re-administration keeps the regimen; the two ReducedMechanisticModel adapters of the shared FixParams run are judged here as well (the wrapper is a mechanistic model)',
     technique='TLA+ spec (MechModel.tla) model-checked with TLC; spec->code replay of transitions and simulated behaviours; '
               'code->spec trace validation (Trace_MechModel.tla) of recorded executions incl. the repository tests',
     design='6/C11')
@@ -199,8 +199,8 @@ CLAIMED['C13'] = dict(
          '_remove_duplicates agree with the declarative source of every individual parameter, for every composition (the '
          'as-found shortcuts are refuted). Every configuration is built as a real PopulationFilterLogPosterior; names, IDs, '
          'counts literal; value up to one constant; gradient exact.',
-    note='bounded: <=2 (3) sub-models, <=2 dims, 2-3 simulated individuals, 1 (2) observables, <=2 times; one open known '
-         'finding (covariate model around a pooled / heterogeneous dimension)',
+    note='bounded: <=2 (3) sub-models, <=2 dims, 2-3 simulated individuals, 1 (2) observables, <=3 times; one open known '
+         'finding (covariate model around a pooled / heterogeneous dimension); three time points with every input order (3-cycles), filters composed over the time points, a second posterior built from the same filter object (FilterReuse)',
     technique='TLA+ spec (FilterPosterior.tla extending PopLayout.tla) model-checked with TLC; spec->code replay of every '
               'enumerated configuration',
     design='6/C13')
@@ -214,7 +214,7 @@ CLAIMED['C14'] = dict(
          'on a dosed PKPD model; regimens, names, IDs, value and gradient must equal those of the posterior assembled by hand '
          'from the specification record, in individual, population and population+covariate mode.',
     note='RefSim stands in for the solver; bounded datasets (<= 2-3 extra rows + base rows, 1-2 individuals, 2 times); the '
-         'hand-assembled posterior uses the plain constructors as oracle',
+         'hand-assembled posterior uses the plain constructors as oracle; the mapping is written in either order; clause AppliedRegimen = the protocol the solver ran with for every individual',
     technique='TLA+ spec (Controller.tla) model-checked with TLC; spec->code replay with a hand-assembled differential oracle',
     design='6/C14')
 CLAIMED['C18'] = dict(
@@ -250,7 +250,7 @@ CLAIMED['C20'] = dict(
          'traces. Every enumerated sample sequence / row set is plotted with the real figure classes and the plotly traces '
          'are read back and compared; data frames are compared before and after.',
     note='figure objects, not pixels; threshold ties between floating point and exact arithmetic are excluded from the '
-         'equality check (the property itself is still checked on them)',
+         'equality check (the property itself is still checked on them); band frames list the time points in ascending order or later-first; probabilities include 0.99 and 0.995; routing rows carry dose and duration independently',
     technique='TLA+ spec (Plots.tla) model-checked with TLC; spec->code replay through the plotly figure objects',
     design='6/C20')
 CLAIMED['C19'] = dict(
